@@ -26,7 +26,7 @@ THOROUGH_S = 600
 BATCH = 2
 MIN_RUNS = 8
 RULE = ('one evaluation = one simulated run of a sampled workload (victim process with 1-6 mutating operations on Cache / Index / '
-        'Deque incl. transaction blocks and bulk removals over >100 rows, 0-2 survivor processes) with the victim killed at ONE '
+        'Deque incl. transaction blocks and bulk removals over >100 rows, or the very first open of a fresh directory as Cache / FanoutCache / Deque / Index followed by one write; 0-2 survivor processes) with the victim killed at ONE '
         'seam event; for each sampled workload the kill point is enumerated over the seam events of the victim (all of them in the '
         'thorough tier, a sample in the quick tier; a torn prefix of the chunk being written is left behind); afterwards survivors '
         'finish and a fresh process opens the directory. Plus real-SIGKILL child runs. Non-trivial = the kill fired inside an '
@@ -34,7 +34,7 @@ RULE = ('one evaluation = one simulated run of a sampled workload (victim proces
 ASSUMPTIONS = ['in-process kill: after the kill instant no task of the victim has any further effect and its descriptors are closed '
                '(what the OS does for SIGKILL); power loss is not modelled',
                'real-kill mode: single victim, kill instant derived from the seed (seam step or progress-handler tick)']
-PROBES = ('kill_mid_file_write', 'kill_torn_chunk', 'kill_in_txn', 'kill_between_commit_and_unlink', 'realkill',
+PROBES = ('kill_mid_file_write', 'kill_torn_chunk', 'kill_in_txn', 'kill_between_commit_and_unlink', 'realkill', 'kill_inside_first_open',
           'debris_unknown_file', 'bulk_partial')
 TECHNIQUE = 'deterministic simulation with crash injection: kill point enumerated over all seam events of sampled workloads; post-crash state checked by linearizability with the interrupted operation pending'
 LEVEL_TEXT = ('fault enumeration: workloads are sampled by seed, but within a workload every kill point at seam granularity is run '
@@ -50,12 +50,24 @@ KEYS = ['a', 'b']
 def gen_case(seed, tier):
     rng = random.Random('%s/c07' % seed)
     r = rng.random()
-    scen = 'lin' if r < 0.55 else ('deque' if r < 0.68 else ('bulk' if r < 0.78 else ('evict' if r < 0.88 else 'realkill')))
+    scen = 'lin' if r < 0.50 else ('deque' if r < 0.62 else ('bulk' if r < 0.71 else ('evict' if r < 0.80 else ('init' if r < 0.90 else 'realkill'))))
     mfs = rng.choice((0, 8, 8, 2 ** 15))
     big_n = {0: 12, 8: 40, 2 ** 15: 2 ** 15 + 5}[mfs]
     cfg = {'scen': scen, 'settings': {'disk_min_file_size': mfs}, 'topology': 'procs', 'sched': {'kind': 'uniform'},
            'clock': {'mode': 'frozen'}, 'yield_clock': False, 'dircollide': rng.random() < 0.5,
            'post_stmt_yield': True, 'timeout': 60}
+    if scen == 'init':
+        # the very first open of a directory (schema, settings, pragmas, shard directories) killed at any point, next to a
+        # second process that opens the same directory at the same time
+        cfg['kind'] = rng.choice(('cache', 'cache', 'fanout', 'deque', 'index'))
+        cfg['shards'] = rng.choice((1, 2, 3))
+        cfg['survivor'] = rng.random() < 0.5
+        cfg['settings'] = {'disk_min_file_size': mfs, 'eviction_policy': rng.choice(('least-recently-stored', 'least-recently-used',
+                                                                                      'least-frequently-used', 'none')),
+                           'tag_index': rng.choice((0, 1)), 'statistics': rng.choice((0, 1))}
+        cfg['sched'] = rng.choice(({'kind': 'uniform'}, {'kind': 'sticky', 'p': 0.8}))
+        return {'seed': seed, 'cfg': cfg, 'progs': {'v': [{'op': 'open'}, {'op': 'write', 'v': {'big': ['bytes', big_n, 'first']}}]},
+                'faults': []}
     if scen == 'lin':
         target = rng.choice(('cache', 'cache', 'index'))
         cfg['target'] = target
@@ -638,8 +650,129 @@ def run_evict(case):
                 present=out.get('present'))
 
 
+def run_init(case):
+    """First open of a fresh directory by the victim (then one write), optionally next to a second process doing the same."""
+    from ..world import World
+    from ..kernel import SimIncident, Killed, Aborted
+    cfg = case['cfg']
+    violations = []
+    probes = {}
+    world = World(case['seed'], sched=cfg['sched'], clock=cfg['clock'], step_cap=60000, yield_clock=False,
+                  post_stmt_yield=cfg.get('post_stmt_yield', True))
+    sim = world.sim
+    try:
+        dc = world.dc
+        path = world.path('c')
+        kind = cfg['kind']
+        value = vals.dec(case['progs']['v'][1]['v'])
+        marks = {}
+
+        def make(timeout=60):
+            if kind == 'cache':
+                return dc.Cache(path, timeout=timeout, **cfg['settings'])
+            if kind == 'fanout':
+                return dc.FanoutCache(path, shards=cfg['shards'], timeout=timeout, **cfg['settings'])
+            if kind == 'deque':
+                return dc.Deque(directory=path)
+            return dc.Index(path)
+
+        def write(t, who):
+            if kind == 'deque':
+                t.append(value)
+            elif kind == 'index':
+                t[who] = value
+            else:
+                t.set(who, value, retry=True)
+
+        def client(who):
+            def fn():
+                task = sim.current
+                task.op, task.op_seams = 0, 0
+                t = make()
+                marks[who + ':opened'] = task.op_seams
+                task.op, task.op_seams = 1, 0
+                write(t, who)
+                marks[who + ':written'] = task.op_seams
+                task.op = -1
+                return True
+            return fn
+
+        sim.faults = [dict(f) for f in case.get('faults', [])]
+        tasks = {'v': sim.spawn('v', 'pv', client('v'))}
+        if cfg.get('survivor'):
+            tasks['s'] = sim.spawn('s', 'ps', client('s'))
+        incident = None
+        try:
+            sim.run()
+        except SimIncident as inc:
+            incident = inc
+        if incident is not None:
+            if incident.kind in ('stepcap', 'deadlock'):
+                violations.append({'rule': 'C07/no-progress', 'sig': incident.kind, 'detail': str(incident)[:200]})
+            else:
+                raise incident
+        classify_kill(sim, probes)
+        killed = bool(sim.fired.get('kill'))
+        for name, t in tasks.items():
+            if t.exc is not None and not isinstance(t.exc, (Killed, Aborted)):
+                violations.append({'rule': 'C07/survivor-failed' if name == 's' or not killed else 'C07/unexpected-exception',
+                                   'sig': type(t.exc).__name__, 'detail': '%s: %s' % (name, str(t.exc)[:160])})
+        if not violations:
+            # a later process opens the directory, reads what was acknowledged, writes, checks
+            try:
+                fresh = make(timeout=0.05)
+            except Exception as exc:  # noqa
+                violations.append({'rule': 'C07/cannot-open', 'sig': type(exc).__name__,
+                                   'detail': 'opening the directory after the kill raises %s: %s' % (type(exc).__name__, str(exc)[:120])})
+                fresh = None
+            if fresh is not None:
+                shards = list(fresh._shards) if kind == 'fanout' else [fresh.cache if kind in ('deque', 'index') else fresh]
+                for who in ('v', 's'):
+                    if who + ':written' not in marks:
+                        continue
+                    try:
+                        got = list(fresh) if kind == 'deque' else fresh[who]
+                        ok = (value in got) if kind == 'deque' else got == value
+                    except Exception as exc:  # noqa
+                        ok = False
+                        got = type(exc).__name__
+                    if not ok:
+                        violations.append({'rule': 'C07/completed-operation-lost', 'sig': kind,
+                                           'detail': 'the write %s completed is not there: %s' % (who, fp(got) if not isinstance(got, str) else got)})
+                for sh in shards:
+                    try:
+                        first = check_messages(sh)
+                    except Exception as exc:  # noqa
+                        violations.append({'rule': 'C07/unusable-after-kill', 'sig': 'check:' + type(exc).__name__,
+                                           'detail': 'check() on the directory left by the kill raises %s: %s' % (type(exc).__name__, str(exc)[:120])})
+                        break
+                    bad = [m for m in first if not (m.startswith('unknown file') or m.startswith('empty directory'))]
+                    if bad:
+                        violations.append({'rule': 'C07/debris-not-permitted', 'sig': ','.join(sorted({m.split(':')[0] for m in bad})),
+                                           'detail': str(bad[:3])})
+                        break
+                    if len(sh) != sum(1 for _ in sh):
+                        violations.append({'rule': 'C07/debris-not-permitted', 'sig': 'len', 'detail': 'len() %d, %d keys' % (len(sh), sum(1 for _ in sh))})
+                        break
+                    finish_checks(sh, violations)
+                    if violations:
+                        break
+                (fresh.cache if kind in ('deque', 'index') else fresh).close()
+        res = {'violations': violations, 'digest': sim.digest(), 'steps': sim.step, 'switches': sim.switches, 'fired': dict(sim.fired),
+               'probes': dict(sim.probes, **probes), 'virtual_s': sim.now - sim._t0, 'picks': sim.picks[:500],
+               'nontrivial': killed, 'outcome': {'marks': marks},
+               'victim_seams': [marks.get('v:opened', 0), marks.get('v:written', 0)]}
+        if killed and 'v:opened' not in marks:
+            res['probes']['kill_inside_first_open'] = 1
+    finally:
+        world.close()
+    return res
+
+
 def run_case(case):
     scen = case['cfg']['scen']
+    if scen == 'init':
+        return run_init(case)
     if scen == 'evict':
         r = run_evict(case)
         if case.get('expect_present') is not None and not r['violations'] and r.get('present') is not None:
